@@ -796,6 +796,11 @@ def _per_iteration(tr, it, lid, term, depth):
     if v is not None:
         t2 = T.subst(term, lambda z: v[0] if z[0] == "iter" and z[1] == it and (lid is None or z[2] == lid) else None)
         return _resolve_subs(tr, t2, depth), v[1]
+    if ia is not None and ia[0] == "mcall" and not T.mentions(it, lambda z: z[0] in ("idx", "iter")):
+        # an iterable produced by a library object (kf.split(X)): its element at POS, whatever loop or comprehension runs over it
+        canon = atom(("iter", it, "POS"))
+        t2 = T.subst(term, lambda z: canon if z[0] == "iter" and z[1] == it and (lid is None or z[2] == lid) else None)
+        return _resolve_subs(tr, t2, depth), atom(("call", "len", (it,), ()))
     return None
 
 
